@@ -20,6 +20,9 @@ class HandlerContext:
     """Context passed to handlers."""
 
     tokens: list[str]
+    cwd: Optional[Path] = (
+        None  # directory the command would run in (None = process cwd)
+    )
 
 
 @dataclass(frozen=True)
